@@ -5,5 +5,5 @@ rm -rf $WT; git -C /repo worktree prune
 git -C /repo worktree add --detach $WT HEAD >/dev/null 2>&1
 cmake -G Ninja -S $WT -B $WT/_build -DCMAKE_BUILD_TYPE=RelWithDebInfo >/dev/null
 cmake --build $WT/_build -j8 2>&1 | tail -2
-ctest --test-dir $WT/_build -j8 --timeout 900 2>&1 | tail -5
+ctest --test-dir $WT/_build -j8 --timeout 900 --output-on-failure 2>&1 | grep -E "Failed|tests passed|tests failed|ERROR|error:|CHECK" | head -40
 git -C /repo worktree remove --force $WT
